@@ -35,3 +35,28 @@ Qed.
 Theorem parse_entry_points_agree (ig : integ) (g1 g2 : bool) (b : list N) :
   parse_stream ig g1 false b = parse_stream ig g2 false b.
 Proof. reflexivity. Qed.
+
+(* ---- C07, writing, rdflib: grouped_stream_to_frames over Graph sinks is the generic grouped write ---- *)
+From PJ.Model Require Import Api.
+From PJ.Proofs Require Import EncRdflib GroupedProofs.
+
+Lemma rdf_grouped_as_generic (sinks : list rdata) : forall (s : stream),
+  Forall (fun d => rd_kind d <> RDataset) sinks -> st_class s = TripleStream ->
+  rdf_grouped_frames sinks s = grouped_frames (map sdata_of sinks) s.
+Proof.
+  induction sinks as [|d rest IH]; intros s Hk Hc; cbn [rdf_grouped_frames grouped_frames map]; [reflexivity|].
+  inversion Hk as [|? ? Hd Hrest]; subst.
+  unfold rdf_stream_frames, stream_frames. rewrite Hc. rewrite (rdf_triples_as_generic d s Hd).
+  destruct (triples_stream_frames (sdata_of d) s) as [s1 evs1] eqn:E.
+  destruct (raised evs1); [reflexivity|].
+  rewrite (IH s1 Hrest); [reflexivity|]. rewrite (triples_stream_frames_class _ _ _ _ E). exact Hc.
+Qed.
+
+Theorem rdf_grouped_write_one_frame_per_graph (sinks : list rdata) (s s' : stream) (evs : list tev) :
+  Forall (fun d => rd_kind d <> RDataset) sinks -> st_class s = TripleStream -> fl_kind (st_flow s) = FGraphs ->
+  rdf_grouped_frames sinks s = (s', evs) -> raised evs = None ->
+  emitted evs = flat_map one_frame (per_sink_rows (map sdata_of sinks) s).
+Proof.
+  intros Hk Hc Hf Hrun Hr. rewrite (rdf_grouped_as_generic sinks s Hk Hc) in Hrun.
+  exact (grouped_write_one_frame_per_sink _ _ _ _ Hc Hf Hrun Hr).
+Qed.
